@@ -214,6 +214,11 @@ def capture_real(runs):
         return res
 
     def w_third(self, ci, co1, co2, tc1, tc2, ir1, ir2, fb, feed_demand, biofuels_demand, fmo1):
+        try:   # the (clipped) round-2 biofuel total as it enters the third round, billion kcals per month
+            cur["_b2"] = hx(np.array(ir2.biofuels_sum_kcals_equivalent
+                                     .in_units_bil_kcals_thou_tons_thou_tons_per_month().kcals, dtype=float))
+        except Exception:  # noqa
+            cur["_b2"] = None
         res = orig["compute_parameters_third_round"](self, ci, co1, co2, tc1, tc2, ir1, ir2, fb, feed_demand,
                                                      biofuels_demand, fmo1)
         tc3 = res[1]
@@ -227,6 +232,7 @@ def capture_real(runs):
              "meat1": hx(np.array(tc1["each_month_meat_slaughtered"].kcals, dtype=float)),
              "meat3": hx(np.array(tc3["each_month_meat_slaughtered"].kcals, dtype=float)),
              "population": hx(float(Food.conversions.population)), "days": hx(float(Food.conversions.days_in_month)),
+             "biofuel_round2": cur.pop("_b2", None),
              "country": str(ci.get("COUNTRY_CODE", "?")), "had_round1": ir1 is not None}
         cur["third"] = h
         return res
